@@ -8,7 +8,7 @@ From TsdateV Require Import model.Validate proofs.ValidateFacts.
 Import ListNotations.
 
 (** Every invalid input listed in the property -- unknown method, a recombination rate,
-    non-positive or NaN min_branch_length, negative or non-int constr_iterations, and for
+    non-positive, NaN or infinite min_branch_length, negative or non-int constr_iterations, and for
     variational_gamma: max_iterations <= 0 (or NaN), a non-positive or NaN mutation rate,
     a population size, priors, eps, a tree sequence without mutations -- is rejected,
     whatever the other parameters and the tree sequence are; and unless a keyword the
@@ -64,11 +64,11 @@ Print Assumptions C35_discrete_rate_unvalidated_refuted.
 
 (** non-vacuity: a concrete valid call is accepted and returns (ts, fit); the same call
     with min_branch_length = NaN is a listed invalid input and is rejected with the
-    min_branch_length ValueError; with +inf it is accepted (finding C35-mbl-inf) *)
+    min_branch_length ValueError, and so it is with +inf (repair 825a5e0) *)
 Example C35_nonvacuous :
   decide vg_params nice_ts = Proceed /\
   parse_result vg_params = inr [RTreeSequence; RFit] /\
   listed_invalid (set_mbl vg_params (Some (NFloat XNaN))) nice_ts = true /\
   decide (set_mbl vg_params (Some (NFloat XNaN))) nice_ts = Reject VE T_min_branch_length /\
-  decide (set_mbl vg_params (Some (NFloat XPInf))) nice_ts = Proceed.
+  decide (set_mbl vg_params (Some (NFloat XPInf))) nice_ts = Reject VE T_min_branch_length.
 Proof. exact example_nonvacuous. Qed.
